@@ -1,0 +1,17 @@
+// Copyright (c) 2025, Peter Ohler, All rights reserved.
+
+package cl
+
+import "github.com/ohler55/slip"
+
+// isTransfer returns true if the result of a body form is the object
+// returned by return-from, return, or go. A form that evaluates a body has to
+// stop evaluating and hand that object to its caller so it reaches the block
+// or tagbody it is meant for.
+func isTransfer(result slip.Object) bool {
+	switch result.(type) {
+	case *slip.ReturnResult, *GoTo:
+		return true
+	}
+	return false
+}
